@@ -494,10 +494,14 @@ func (t *Collection) VisitItemsRandom(
 
 	for j := lenBlock + 1; j > 0; j-- {
 		for i, si := range blockStore {
+			if si == nil {
+				continue // Block exhausted.
+			}
 			// The behaviour we want is to visit the first item in each of blockStore
 			// then on the second item update blockStore to point to that second item
 			// repeat for each item in the block
 			first := true
+			advanced := false
 			vis := func(itm *Item, depth uint64) bool {
 
 				if first {
@@ -506,11 +510,15 @@ func (t *Collection) VisitItemsRandom(
 				}
 				first = true
 				blockStore[i] = itm.Key
+				advanced = true
 				return false
 			}
 			err = t.VisitItemsAscendEx(si, true, vis)
 			if err != nil {
 				return err
+			}
+			if !advanced {
+				blockStore[i] = nil // No further item: do not visit the last one again.
 			}
 		}
 	}
